@@ -11,6 +11,8 @@ CHECKS = {
  "C09": ("model_checking", "Connection drops at every protocol step (in-flight commands and responses lost) for set/set, allocate/set and allocate/input flows; quiescent-state oracle requires every application event exactly once and all messages delivered; every server connection must start with bind.", "bounds: complete BFS with <=1 (thorough 2) drop on the fine side, deviation-bounded with <=2 (3) drops per side", TECH),
  "C18": ("model_checking", "Event-order monitor (code <= key <= verifier <= versions/messages <= closed, once each, verifier before data, versions before messages on an order-preserving server) on every state of BFS / deviation-bounded explorations with close(), drops, reordering, duplication, explored eventual-queue turns, and explicit get_*() calls issued before and after the events and after closed.", "bounds as in the evidence file; get_*() timing explored for <=3 calls per thread", TECH),
  "C14": ("model_checking", "Composed client (13 machines) explored under the widest conformant-server environment: all code flows and API styles, reordered/duplicated delivery, injected error replies, welcome error/motd, a scripted third participant (polite, PAKE-less, other-password, malformed PAKE), drops and initial connection failure; any escaped exception, log.err or undocumented close verdict is a violation; reached Automat (machine,state,input) pairs are reported against those declared.", "legal use = no code-entry call after the application called close() or was told the wormhole is over; dilation not enabled in these scenarios", TECH),
+ "C01": ("model_checking", "All ordered pairs over 13 code spellings (one character, case, word added/removed, trailing hyphen, NFC vs NFD, NFC-equal and NFC-distinct look-alikes, nameplates) x appid variants (incl. a merged-namespace server so different appids meet) x set_code/input_code, run on the real SPAKE2/HKDF/SecretBox; derive_key over 6 purposes x 4 lengths; plus complete BFS of delivery/API schedules for representative pairs including the peer's PAKE arriving before the local code.", "code and purpose alphabets are finite samples of an infinite domain; schedules complete for the stated scripts", TECH),
+ "C02": ("model_checking", "Every single tamper operation (bit flip at every body offset, truncate, extend, phase re-label, side rename/reflection, cross-phase replay, random and PAKE injection, drop, duplicate) at every position of both server->client message streams, plus BFS / deviation-bounded search with tamper operations as explored events (pairs of operations, all interleavings); ghost ledger of what honest parties encrypted is the oracle; derive_phase_key injectivity over a concatenation-ambiguity alphabet.", "adversary = server or third participant without the code; quick flips one bit per byte, thorough all eight", TECH),
 }
 NA = {}
 props = [json.loads(l)["id"] for l in open(os.path.join(HERE, "properties.jsonl"))]
